@@ -263,12 +263,17 @@ def history_dependent_rounding_fold(v, prop="", text="", **kw):
     e = env.child_env("0")
     e["VERIF_REPO"] = env.REPO
     p = subprocess.run(["/venv/bin/python", "-m", "vf.exec.fresh"], input=json.dumps({"text": text, "requests": [], "count_rounding_nodes_of": name}), capture_output=True, text=True, env=e, cwd=env.VERIF, timeout=300)
-    fresh = None
+    fresh = fresh_repr = None
     for ln in p.stdout.splitlines():
         if ln.startswith("RESULT "):
             fresh = json.loads(ln[7:]).get("count")
+            fresh_repr = json.loads(ln[7:]).get("srepr")
     if fresh is not None and here < fresh:
         d["rounding_nodes_here_vs_fresh_interpreter"] = [here, fresh]
+        return f"{prop}-sympy-folds-floor-to-a-history-dependent-constant"
+    if fresh_repr is not None and fresh_repr != FR.closure_srepr(lo.value, name):
+        # the floor is folded in both processes, but to different constants (floor(0*x): 0 in a fresh interpreter, -1 here)
+        d["symbolic_stage_differs_from_fresh_interpreter"] = True
         return f"{prop}-sympy-folds-floor-to-a-history-dependent-constant"
     return None
 
